@@ -10,13 +10,17 @@ from .report import Result
 
 
 class Context:
-    def __init__(self, prop: str, tier: str, seed: int, root: str = None):
+    def __init__(self, prop: str, tier: str, seed: int, root: str = None, flatten: bool = False):
+        self.flattened = {}
         self.prop = prop
         self.tier = tier
         self.seed = seed
         self.root = root or repo_root()
         # C20 links every call site in the repository; the other properties only need the demos (pipelines, slots)
         self.repo = Repo(self.root, with_clients="all" if (prop == "C20" or tier == "thorough") else ("demos",))
+        if flatten:
+            from .flatten import flatten_repo
+            self.flattened = flatten_repo(self.repo)
         self.result = Result(prop, tier, seed)
         self.result.analysed = {
             "repo": self.root,
